@@ -20,7 +20,9 @@ instances; well-formedness of what was added; chord likelihood unchanged under t
 """
 import itertools
 import math
+import os
 import struct
+import sys
 import warnings
 from concurrent.futures import ThreadPoolExecutor
 
@@ -329,6 +331,20 @@ PARAM_SETS = [
     {'key_change_prob': 0.001, 'chord_change_prob': 1.0, 'chord_pitch_out_of_key_prob': 0.0, 'chord_note_concentration': 0.0},
     {'key_change_prob': 0.5, 'chord_change_prob': 0.1, 'chord_pitch_out_of_key_prob': 0.5, 'chord_note_concentration': 250.0},
 ]
+N_BASE_PARAM_SETS = len(PARAM_SETS)
+# The history family: the cube {key_change_prob} x {chord_change_prob} x {chord_pitch_out_of_key_prob} around the
+# defaults (0.001, 0.5, 0.01), each corner with strong / weak / very weak evidence.  Any two corners that differ in
+# ONE coordinate share the other two, so a call sequence walking the cube holds every pair of parameters fixed while
+# the third varies (and holds all three fixed while only the concentration varies).
+HIST_KCP, HIST_CCP, HIST_POUT, HIST_CONC = [0.001, 0.05], [0.5, 0.9], [0.01, 0.4], [100.0, 5.0, 1.0]
+HIST_INDEX = {}
+for _a in HIST_KCP:
+    for _b in HIST_CCP:
+        for _c in HIST_POUT:
+            for _d in HIST_CONC:
+                HIST_INDEX[(_a, _b, _c, _d)] = len(PARAM_SETS)
+                PARAM_SETS.append({'key_change_prob': _a, 'chord_change_prob': _b, 'chord_pitch_out_of_key_prob': _c,
+                                   'chord_note_concentration': _d})
 SUPPORTED = [(2, 2), (2, 4), (3, 4), (4, 4), (6, 8)]
 KINDS = [[0, 4, 7], [0, 3, 7], [0, 4, 8], [0, 3, 6], [0, 4, 7, 10], [0, 4, 7, 11], [0, 3, 7, 10], [0, 3, 6, 10]]
 
@@ -477,17 +493,29 @@ def gen_melody_case(rng):
 
 
 # ============================================================================= capture
+VERIFY_HITS = (1, 10, 100, 1000)
+
+
 class Capture:
-    """record what the real Viterbi helpers are called with and return, memoise the (pure, slow)
-    transition-distribution builder per parameter set.  Nothing is replaced: the real functions run."""
+    """record what the real Viterbi helpers are called with and return.  Nothing is replaced: the real functions
+    run.  The one exception is speed: `_key_chord_transition_distribution` is a 0.65 s Python loop, so when a `cache`
+    dict is given its result is remembered per (distribution bytes, key_change_prob, chord_change_prob) — ALL of its
+    arguments.  So that this cannot mask hidden state in the code, (1) the cache only ever stands in for a call the
+    code really made with exactly those arguments, (2) at the 1st, 10th, 100th, … hit of an entry the real function
+    is run again and must return the identical table (`impure` otherwise: reported by the oracle), (3) what the oracle
+    judges is the table actually handed to `_key_chord_viterbi`, compared with a table computed independently from
+    the parameters of THIS call (`oracle_chord_tables`), and (4) the history stream runs with `cache=None`, i.e. with
+    the unpatched function."""
 
     def __init__(self, cache):
         self.cache = cache
         self.kc = []      # (fl, kc, tr, result)
         self.mel = []     # (pitches, fl, tr, result)
         self.frames_arg = []
+        self.impure = []
 
     def __enter__(self):
+        import numpy as np
         from note_seq import chord_inference as ci, melody_inference as mi
         self.ci, self.mi = ci, mi
         self.orig = (ci._key_chord_viterbi, ci._key_chord_transition_distribution, ci.sequence_note_pitch_vectors,
@@ -500,10 +528,19 @@ class Capture:
             return r
 
         def td(dist, key_change_prob, chord_change_prob):
-            k = (dist.tobytes(), key_change_prob, chord_change_prob)
-            if k not in self.cache:
-                self.cache[k] = o_td(dist, key_change_prob=key_change_prob, chord_change_prob=chord_change_prob)
-            return self.cache[k].copy()
+            k = (dist.tobytes(), dist.shape, key_change_prob, chord_change_prob)
+            ent = self.cache.get(k)
+            if ent is None:
+                m = o_td(dist, key_change_prob=key_change_prob, chord_change_prob=chord_change_prob)
+                self.cache[k] = [m.copy(), 0]
+                return m
+            ent[1] += 1
+            if ent[1] in VERIFY_HITS:
+                m = o_td(dist, key_change_prob=key_change_prob, chord_change_prob=chord_change_prob)
+                if m.shape != ent[0].shape or not np.array_equal(m, ent[0], equal_nan=True):
+                    self.impure.append((key_change_prob, chord_change_prob))
+                return m
+            return ent[0].copy()
 
         def pv(sequence, seconds_per_frame):
             self.frames_arg.append(seconds_per_frame)
@@ -514,7 +551,9 @@ class Capture:
             self.mel.append((list(pitches), fl, tr, r))
             return r
 
-        ci._key_chord_viterbi, ci._key_chord_transition_distribution, ci.sequence_note_pitch_vectors = kv, td, pv
+        ci._key_chord_viterbi, ci.sequence_note_pitch_vectors = kv, pv
+        if self.cache is not None:
+            ci._key_chord_transition_distribution = td
         mi._melody_viterbi = mv
         return self
 
@@ -565,7 +604,10 @@ def chord_timing(d, s, cap):
 _TABLE_CACHE = {}
 
 
-def oracle_chord_tables(np, ci, d, s, cap, fl, kc, tr, C):
+LIKELIHOOD_MAX_FRAMES = 16
+
+
+def oracle_chord_tables(np, ci, d, s, cap, fl, kc, tr, C, path=None):
     """"its own model": the three tables handed to the key-chord Viterbi must be the HMM that the DOCUMENTED parameters
     of infer_chords_for_sequence define (computed here from the chord / key tables and the parameters the caller passed):
     P(chord | key) ∝ (1-p)^#in-key * p^#out-of-key, transitions by key_change_prob / chord_change_prob, emission =
@@ -624,6 +666,19 @@ def oracle_chord_tables(np, ci, d, s, cap, fl, kc, tr, C):
         bad = close_tables(np, fl, E, tol=1e-7)
         if bad:
             return 'the frame likelihood table used by chord inference is not chord_note_concentration=%r times the chord match: entry %r' % (conc, bad)
+        # the statement itself, on tables none of which came out of the call under judgement: the path the call
+        # returned must reach the optimum of an independent dynamic program over the HMM that THIS call's parameters
+        # define (whatever the process did before).  Independent tables agree with the code's only up to rounding
+        # (sums taken in another order), hence a relative 1e-6 instead of exact equality.
+        frames = fl.shape[0]
+        if path is not None and frames <= LIKELIHOOD_MAX_FRAMES and not (np.isnan(E).any() or np.isnan(KC).any() or np.isnan(T).any()):
+            with np.errstate(invalid='ignore'):
+                sc = kc_score(np, path, E, KC, T, C)
+                opt = dp_optimum(np, kc_init(np, E, KC, C), T, [np.tile(E[t], 12) for t in range(1, frames)])
+            if not (sc == opt or sc >= opt - 1e-6 * max(1.0, abs(opt))):
+                return ('the returned key/chord path has log-likelihood %r under the model defined by this call\'s parameters '
+                        '(out_of_key=%r, key_change=%r, chord_change=%r, concentration=%r); the maximum is %r'
+                        % (sc, pout, kcp, ccp, conc, opt))
     return None
 
 
@@ -646,7 +701,10 @@ def oracle_chords(np, d, res):
     r = oracle_kc(np, path, fl, kc, tr, C)
     if r:
         return r
-    r = oracle_chord_tables(np, ci, d, s, cap, fl, kc, tr, C)
+    if cap.impure:
+        return ('_key_chord_transition_distribution returned a different table when called again with identical arguments '
+                '(key_change_prob, chord_change_prob) = %r: it depends on hidden state' % (cap.impure[0],))
+    r = oracle_chord_tables(np, ci, d, s, cap, fl, kc, tr, C, path)
     if r:
         return r
     tm = chord_timing(d, s, cap)
@@ -732,7 +790,7 @@ def run_melody(d):
     from note_seq import melody_inference as mi
     s = build_seq(d)
     n0 = len(s.notes)
-    with Capture({}) as cap, warnings.catch_warnings(), __import__('numpy').errstate(divide='ignore', invalid='ignore'):
+    with Capture(None) as cap, warnings.catch_warnings(), __import__('numpy').errstate(divide='ignore', invalid='ignore'):
         warnings.simplefilter('ignore')
         try:
             inst = mi.infer_melody_for_sequence(s, **d['params'])
@@ -937,6 +995,8 @@ def run(chk):
 
     def lap(name):
         chk.notes.setdefault('phase_seconds', {})[name] = round(_time.time() - t_mark[0], 1)
+        if os.environ.get('VERIF_C19_TIMING'):
+            print('[c19 timing] %-14s %.1f s' % (name, _time.time() - t_mark[0]), file=sys.stderr)
         t_mark[0] = _time.time()
     lap('prove')
     groups, meta = [], []     # meta[g] = list of (stream, key, impl, kind, extra) aligned with groups[g]
